@@ -18,38 +18,38 @@ package satisfaction_levels
 //@ pred decValid(m CoefficientManager, c real, mn real, mx real) = !(c <= 0.0 || c >= 1.0 || mn <= 0.0 || mn > 1.0 || mx <= 0.0 || mx > 1.0)
 
 //@ func (*IncreasingCoefficientManager).Validate
-//@   property C14 C20
+//@   property C14 C20 C12 C13
 //@   refines satisfaction_levels.CoefficientManager.Validate with validFor=incValid
 //@   panics_iff [range] params.Coefficient <= 0.0 || params.Coefficient >= 1.0 || params.MinValue < 0.0 || params.MinValue > 1.0 || params.MaxValue < 0.0 || params.MaxValue > 1.0
 //@ func (*IncreasingCoefficientManager).InitialValue
-//@   property C14 C20
+//@   property C14 C20 C12 C13
 //@   ensures [initial] result == params.MinValue
 //@ func (*IncreasingCoefficientManager).HasNext
-//@   property C14 C20
+//@   property C14 C20 C12 C13
 //@   ensures [hasnext] result <==> params.currentValue < params.MaxValue
 
 //@ func (*DecreasingCoefficientManager).Validate
-//@   property C14 C20
+//@   property C14 C20 C12 C13
 //@   refines satisfaction_levels.CoefficientManager.Validate with validFor=decValid
 //@   panics_iff [range] params.Coefficient <= 0.0 || params.Coefficient >= 1.0 || params.MinValue <= 0.0 || params.MinValue > 1.0 || params.MaxValue <= 0.0 || params.MaxValue > 1.0
 //@ func (*DecreasingCoefficientManager).InitialValue
-//@   property C14 C20
+//@   property C14 C20 C12 C13
 //@   ensures [initial] result == params.MaxValue
 //@ func (*DecreasingCoefficientManager).HasNext
-//@   property C14 C20
+//@   property C14 C20 C12 C13
 //@   ensures [hasnext] result <==> params.currentValue > params.MinValue
 
 //@ func var:IdealIncreasingMulCoefficientSatisfaction#1
-//@   property C14 C20
+//@   property C14 C20 C12 C13
 //@   ensures [formula] result == incMul(current, coefficient)
 //@ func var:IdealAdditiveCoefficientSatisfaction#1
-//@   property C14 C20
+//@   property C14 C20 C12 C13
 //@   ensures [formula] result == incAdd(current, coefficient)
 //@ func var:IdealDecreasingMulCoefficientSatisfaction#1
-//@   property C14 C20
+//@   property C14 C20 C12 C13
 //@   ensures [formula] result == decMul(current, coefficient)
 //@ func var:IdealSubtrCoefficientSatisfaction#1
-//@   property C14 C20
+//@   property C14 C20 C12 C13
 //@   ensures [formula] result == decSub(current, coefficient)
 
 //@ lemma [C14] inc_mul_strictly_increasing: forall r real, c real, mx real
@@ -79,7 +79,7 @@ package satisfaction_levels
 //@ spec initval(m CoefficientManager, mn real, mx real) real
 
 //@ func (*IdealCoefficientSatisfactionLevels).Next
-//@   property C14
+//@   property C14 C12 C13
 //@   requires len(s.criteriaValuesRanges) >= len(s.criteria)
 //@   requires forall i int, j int :: 0 <= i && i < j && j < len(s.criteria) ==> s.criteria[i].Id != s.criteria[j].Id
 //@   assigns s
@@ -125,7 +125,7 @@ package satisfaction_levels
 //@      c.ValuesRange != nil ? r == *c.ValuesRange : observedRange(r, dmp.ConsideredAlternatives, dmp.NotConsideredAlternatives, c.Id)
 
 //@ func (*IdealCoefficientSatisfactionLevels).Initialize
-//@   property C14
+//@   property C14 C12 C13
 //@   assigns s
 //@   ensures [criteria] s.criteria == dmp.Criteria && len(s.criteriaValuesRanges) == len(dmp.Criteria)
 //@   ensures [ranges_declared] forall k int :: 0 <= k && k < len(dmp.Criteria) && dmp.Criteria[k].ValuesRange != nil ==> s.criteriaValuesRanges[k] == *dmp.Criteria[k].ValuesRange
@@ -144,11 +144,11 @@ package satisfaction_levels
 
 // ---- no state shared between requests (C09): every request decodes its level parameters into a new object
 //@ func (*ThresholdSatisfactionLevelsSource).BlankParams
-//@   property C09 C14
+//@   property C09 C14 C12 C13
 //@   nopanic
 //@   ensures [new_object_each_time] typeis(result, *ThresholdSatisfactionLevels) && fresh(result.(*ThresholdSatisfactionLevels))
 //@ func (*IdealCoefficientSatisfactionLevelsSource).BlankParams
-//@   property C09 C14
+//@   property C09 C14 C12 C13
 //@   nopanic
 //@   ensures [new_object_each_time] typeis(result, *IdealCoefficientSatisfactionLevels) && fresh(result.(*IdealCoefficientSatisfactionLevels))
 //@             && result.(*IdealCoefficientSatisfactionLevels).manager == s.coefficientManager
